@@ -12,7 +12,8 @@ history conforms.
 * an arrival whose message ID has no handler execution in the last 247 s (in particular: one that was
   never seen, whatever the endpoint's own outgoing IDs are) is fresh: the handler runs exactly once.
 At the exact instant `t + 247 s` either behaviour is accepted (the property fixes no reference instant
-to the nanosecond).  Handler replies with code 0.00 are outside the quantified behaviours.
+to the nanosecond).  There is no exception for any kind of reply: a request answered with code 0.00 or a
+Reset is in scope like any other (F28).
 -/
 namespace CoapVerif.Spec.Dedup
 
@@ -61,7 +62,7 @@ def reply (o : Obs) : Option Dgram := o.sent.find? (fun d => d.tok != nestedTok 
 def doneAt (o : Obs) : Nat := o.t + o.dur
 
 def inScope (o : Obs) : Bool :=
-  !o.ran.isEmpty && o.beh != .empty && (o.typ == .con || (reply o).isSome)
+  !o.ran.isEmpty && (o.typ == .con || (reply o).isSome)
 
 def sameContent (a b : Dgram) : Bool :=
   a.code == b.code && a.tok == b.tok && a.opts == b.opts && a.pay == b.pay
